@@ -1526,7 +1526,9 @@ def gen_layout(rng: random.Random, tier: str):
         d = rng.choice([2, 3])
         yield {"d": d, "n": rng.randint(1, 3), "c": rng.randint(2, 3), "flow": rng.random() < 0.4, "seed": rng.randrange(1 << 30),
                "layout": rng.choice(["channels_last", "permuted_view", "channel_slice", "strided", "flipped", "plain"]),
-               "how": rng.choice(["pickle", "pickle", "copy", "deepcopy"]), "single": rng.random() < 0.3}
+               "how": rng.choice(["pickle", "pickle", "copy", "deepcopy"]), "single": rng.random() < 0.3,
+               # per-item grids that compare `==` (Grid.__eq__ ignores align_corners and uses allclose) yet are different
+               "near": rng.random() < 0.4}
 
 
 def check_layout(c):
@@ -1539,6 +1541,11 @@ def check_layout(c):
     sp = tuple([4, 5, 3][:d])
     gen_t = torch.Generator().manual_seed(c["seed"])
     grids = [grid_for(i, sp) for i in range(n)]
+    if c.get("near"):
+        g0 = grids[0]
+        grids = [g0] + [Grid(size=g0.size(), spacing=g0.spacing(), center=g0.center() * (1 + 2e-6 * (i // 2)),
+                             direction=g0.direction(), align_corners=(g0.align_corners() if i % 2 == 0 else not g0.align_corners()))
+                        for i in range(1, n)]
     base = torch.rand((n, ch) + sp, generator=gen_t)
     lay = c["layout"]
     if lay == "permuted_view":
@@ -1568,8 +1575,15 @@ def check_layout(c):
                 f"(max abs diff {float((y.as_subclass(torch.Tensor) - x.as_subclass(torch.Tensor)).abs().max()) if y.shape == x.shape else 'shape'})")
     gx = x.grids() if hasattr(x, "grids") else (x.grid(),)
     gy = y.grids() if hasattr(y, "grids") else (y.grid(),)
-    if len(gx) != len(gy) or any(not (a == b) for a, b in zip(gx, gy)):
-        return (f"C19:{c['how']}:{lay}:grids", "grids differ after the copy")
+    def identical(a: Grid, b: Grid) -> bool:
+        return (a == b and a.align_corners() == b.align_corners() and tuple(a.size()) == tuple(b.size())
+                and torch.equal(a.center(), b.center()) and torch.equal(a.spacing(), b.spacing())
+                and torch.equal(a.direction(), b.direction()))
+
+    if len(gx) != len(gy) or any(not identical(a, b) for a, b in zip(gx, gy)):
+        k = next((i for i, (a, b) in enumerate(zip(gx, gy)) if not identical(a, b)), -1)
+        return (f"C19:{c['how']}:{lay}:grids", f"grids differ after the copy (entry {k}: {gx[k]!r} became {gy[k]!r})"
+                if k >= 0 else "number of grids differs after the copy")
     if c["flow"] and y.axes() != x.axes():
         return (f"C19:{c['how']}:{lay}:axes", "axes differ after the copy")
     return None
